@@ -53,13 +53,13 @@ def cases(draw, tier="quick"):
         P["inject_error"] = draw(st.integers(0, 1))
     if shape == "unwelcome":
         if draw(st.integers(0, 2)) > 0:
-            P["welcome_error"] = "go away"
+            P["welcome_error"] = draw(st.sampled_from(["go away", "geh weg \u2013 geschlo\u00dfen \u2603"]))
         else:
             # the server starts refusing clients later: only re-connections are greeted with the error
             P["welcome_error_late"] = [draw(st.integers(2, 4)), "go away"]
             P["drops"] = max(P["drops"], 2)
     if shape == "motd":
-        P["welcome_motd"] = "hello"
+        P["welcome_motd"] = draw(st.sampled_from(["hello", "Gr\u00fc\u00dfe \u2603 \U0001f600"]))
     if shape == "refuse":
         r = draw(st.integers(0, 1))
         P["refuse"] = [1 if r == 0 else 0, 1 if r == 1 else 0]
@@ -91,6 +91,7 @@ def cases(draw, tier="quick"):
         P["w_adv"] = draw(st.sampled_from([2, 6]))
     n = draw(st.integers(0, 240))
     P["closing_drops"] = draw(st.booleans())   # graceful server closes pass through the WebSocket CLOSING state
+    P["raw_utf8"] = draw(st.booleans())          # the server does not \u-escape non-ASCII text in its JSON
     # outages: a budget of reconnection attempts that fail at the TCP level, several in a row
     P["re_refuse"] = draw(st.sampled_from([[0, 0], [0, 0], [3, 0], [0, 7], [12, 12]]))
     P["tape"] = draw(st.binary(min_size=n, max_size=n))
@@ -125,7 +126,7 @@ def latecode_cases(draw, tier="quick"):
     if shape == "error":
         P["inject_error"] = side
     else:
-        P["welcome_error"] = "go away"
+        P["welcome_error"] = draw(st.sampled_from(["go away", "geh weg \u2013 geschlo\u00dfen \u2603"]))
     P["drops"] = draw(st.sampled_from([0, 1, 3]))
     P["closing_drops"] = draw(st.booleans())
     P["w_drop"] = 3
